@@ -743,6 +743,14 @@ func OpenWith(path string, vLogs []appendable.Appendable, txLog, cLog appendable
 		}
 	}
 
+	// leaves of transactions that were discarded (and replaced) before the stop may have reached the files of the
+	// hash tree while the leaves of their replacements did not
+	err = store.rewindStaleBinaryLinking()
+	if err != nil {
+		store.Close()
+		return nil, fmt.Errorf("binary-linking validation failed: %w", err)
+	}
+
 	if store.aht.Size() == precommittedTxID {
 		store.logger.Infof("binary-linking up to date at '%s'", store.path)
 	} else {
@@ -1263,6 +1271,41 @@ func (s *ImmuStore) precommittedAlh() (uint64, [sha256.Size]byte) {
 	defer s.commitStateRWMutex.RUnlock()
 
 	return s.inmemPrecommittedTxID, s.inmemPrecommittedAlh
+}
+
+// rewindStaleBinaryLinking rewinds the hash tree to its last leaf that is the accumulated hash of the
+// transaction with the same id, the following ones are appended again from the tx log by syncBinaryLinking
+func (s *ImmuStore) rewindStaleBinaryLinking() error {
+	size := s.aht.Size()
+	n := size
+
+	for n > 0 {
+		leaf, err := s.aht.DataAt(n)
+		if err != nil {
+			return err
+		}
+
+		hdr, err := s.ReadTxHeader(n, true, false)
+		if err != nil {
+			return err
+		}
+
+		alh := hdr.Alh()
+
+		if bytes.Equal(leaf, alh[:]) {
+			break
+		}
+
+		n--
+	}
+
+	if n == size {
+		return nil
+	}
+
+	s.logger.Infof("binary-linking at '%s' holds entries of discarded transactions since %d", s.path, n+1)
+
+	return s.aht.ResetSize(n)
 }
 
 func (s *ImmuStore) syncBinaryLinking() error {
